@@ -976,9 +976,12 @@ struct Interp {
             X->out.skipped++;
             break;
           }
-          ts->x[op.a & 1].SetVersion(op.arg);
+          // c == 1: republish the version that was current when the grant began (the lock word returns to a
+          // value it had before: the ABA case for TryLock*/PrepareRead's load-then-CAS)
+          const uint32_t v = op.c == 1 ? ts->x[op.a & 1].GetVersion() : op.arg;
+          ts->x[op.a & 1].SetVersion(v);
           m.has_set = true;
-          m.set_ver = op.arg;
+          m.set_ver = v;
           break;
         }
         case XVER: {
